@@ -21,7 +21,7 @@ import (
 // programs of c05BigValueScenarios only.
 const c05HotValues = 4
 
-var c05ValueNames = []string{"empty", "a", "aNULb", "4KiB", "65535B", "65536B", "65537B", "300KB", "1MiB"}
+var c05ValueNames = []string{"empty", "a", "aNULb", "4KiB", "65535B", "65536B", "65537B", "300KB", "1MiB", "b", "xyz"}
 
 var c05Values = func() [][]byte {
 	mk := func(n int, salt byte) []byte {
@@ -32,7 +32,9 @@ var c05Values = func() [][]byte {
 		return b
 	}
 	return [][]byte{{}, []byte("a"), []byte("a\x00b"), mk(4096, 0),
-		mk(65535, 1), mk(65536, 2), mk(65537, 3), mk(300_000, 4), mk(1<<20, 5)}
+		mk(65535, 1), mk(65536, 2), mk(65537, 3), mk(300_000, 4), mk(1<<20, 5),
+		// same lengths as "a" and "a\x00b" (handle re-use programs)
+		[]byte("b"), []byte("xyz")}
 }()
 
 func c05ValName(v []byte) string {
@@ -67,9 +69,35 @@ func c05BigValueScenarios(backend, mode string, v int) []c05Scenario {
 	}
 }
 
+// c05HandleReuseScenarios are the programs in which one fetched handle is used
+// for two Replaces: by one client ([Replace(h,v1) Replace-again(h,v2) Fetch]:
+// the second must fail and leave v1) or, with share, by two clients holding
+// the very same handle object. v1 is as long as, shorter than and longer than
+// the predecessor X.
+func c05HandleReuseScenarios(backend, mode string, share bool) []c05Scenario {
+	const vA, vANULB, vB, vXYZ = 1, 2, 9, 10
+	F := c05Op{K: "F"}
+	var out []c05Scenario
+	for _, t := range [][3]int{{vA, vB, vXYZ}, {vANULB, vXYZ, vA}, {vANULB, vA, vB}, {vA, vANULB, vB}} {
+		x, v1, v2 := t[0], t[1], t[2]
+		if share {
+			out = append(out,
+				c05Scenario{Backend: backend, Mode: mode, Init: x, Share: true, Progs: [][]c05Op{{{K: "R", V: v1}}, {{K: "R", V: v2}, F}}},
+				c05Scenario{Backend: backend, Mode: mode, Init: x, Share: true, Progs: [][]c05Op{{{K: "R", V: v1}, {K: "S", V: v2}}, {{K: "S", V: v2}}}})
+			continue
+		}
+		out = append(out,
+			c05Scenario{Backend: backend, Mode: mode, Init: x, Progs: [][]c05Op{{{K: "R", V: v1}, {K: "S", V: v2}, F}}},
+			c05Scenario{Backend: backend, Mode: mode, Init: -1, Progs: [][]c05Op{{{K: "C", V: x}, F, {K: "R", V: v1}, {K: "S", V: v2}, F}}},
+			c05Scenario{Backend: backend, Mode: mode, Init: x, Progs: [][]c05Op{{{K: "R", V: v1}, {K: "S", V: v2}}, {F, {K: "R", V: v2}}}})
+	}
+	return out
+}
+
 // c05Op is one step of a client program. K is "F" (Fetch), "R" (Replace with
 // the checkpoint the client holds: the one it last fetched or got back from a
-// successful Replace) or "C" (Create). V indexes c05Values for R and C.
+// successful Replace), "S" (Replace with the handle the client last FETCHED,
+// again, whatever happened to it since) or "C" (Create). V indexes c05Values.
 type c05Op struct {
 	K string `json:"k"`
 	V int    `json:"v"`
@@ -85,11 +113,23 @@ type c05Scenario struct {
 	Init    int       `json:"init"`
 	Progs   [][]c05Op `json:"progs"`
 	Faults  int       `json:"faults,omitempty"` // max injected 500s per schedule (http)
+	// Share: after the setup every client holds the very same handle OBJECT
+	// (in-process modes only). Chunked: the store answers reads without a
+	// Content-Length header (chunked transfer encoding).
+	Share   bool `json:"share,omitempty"`
+	Chunked bool `json:"chunked,omitempty"`
 }
 
 func (sc c05Scenario) String() string {
 	var b strings.Builder
-	fmt.Fprintf(&b, "%s/%s init=", sc.Backend, sc.Mode)
+	fmt.Fprintf(&b, "%s/%s", sc.Backend, sc.Mode)
+	if sc.Share {
+		b.WriteString("+shared-handle")
+	}
+	if sc.Chunked {
+		b.WriteString("+chunked-reads")
+	}
+	b.WriteString(" init=")
 	if sc.Init < 0 {
 		b.WriteString("absent")
 	} else {
@@ -317,6 +357,7 @@ type c05Rec struct {
 	Ret    int    `json:"ret"`    // logical time of return
 	Res    string `json:"res"`    // ok | notfound | err
 	Val    []byte `json:"-"`      // F ok: Bytes() of the result; R ok: Bytes() of the returned checkpoint
+	Reused bool   `json:"reused,omitempty"` // R issued with the last FETCHED handle although a Replace from it had already been attempted ("S" step)
 	Maybe  bool   `json:"maybe,omitempty"`
 	// Maybe: the operation returned an error after a response of one of its
 	// (applied) requests was lost, so it may or may not have taken effect.
@@ -340,6 +381,9 @@ func (r c05Rec) String() string {
 		s += "Fetch"
 	case "R":
 		s += fmt.Sprintf("Replace(%s->%s)", c05ValName(r.Old), c05ValName(r.New))
+		if r.Reused {
+			s += "[fetched handle used again]"
+		}
 	case "C":
 		s += fmt.Sprintf("Create(%s)", c05ValName(r.New))
 	}
